@@ -9,22 +9,23 @@ import (
 	"go/types"
 	"sort"
 	"strings"
+	"sync"
 
 	"golang.org/x/tools/go/ssa"
 )
 
 type Obligation struct {
-	Name   string
-	Fn     string
-	Kind   string
-	Prefix int    // number of commands of FnCtx.cmds that precede the goal
-	PrefixBefore int // canary2: prefix before the call
-	Goal   string // must hold; the query asserts its negation
-	Src    string
-	Ctx    *FnCtx
-	Cases  []string // human description of the aggregated sites
-	Result *SolveResult
-	Known  string // known-finding text if listed
+	Name         string
+	Fn           string
+	Kind         string
+	Prefix       int    // number of commands of FnCtx.cmds that precede the goal
+	PrefixBefore int    // canary2: prefix before the call
+	Goal         string // must hold; the query asserts its negation
+	Src          string
+	Ctx          *FnCtx
+	Cases        []string // human description of the aggregated sites
+	Result       *SolveResult
+	Known        string // known-finding text if listed
 }
 
 type retSite struct {
@@ -79,40 +80,43 @@ type FnCtx struct {
 	loops  map[*ssa.BasicBlock]*loopInfo
 	loopOf []*loopInfo
 	// aggregated obligations
-	lockReads  []accessSite
-	lockWrites []accessSite
-	safety     []accessSite
-	callCount  map[string]int
-	goCount    int
-	rangeSeen  map[*ssa.Range]Comp
-	unsupported []string
-	lockSweep  bool
-	allocEntry string
-	ghostCounts map[string]int
-	cntFuncs    map[string]*cntInfo
-	compRef     map[string]bool
-	entryAssumes []*Clause
-	errGlobals   []string
-	lemmaVCs     []lemmaVC
-	modTab       map[string]*modEntry
-	assumingPost bool
+	lockReads      []accessSite
+	lockWrites     []accessSite
+	safety         []accessSite
+	callCount      map[string]int
+	goCount        int
+	rangeSeen      map[*ssa.Range]Comp
+	unsupported    []string
+	lockSweep      bool
+	allocEntry     string
+	ghostCounts    map[string]int
+	cntFuncs       map[string]*cntInfo
+	compRef        map[string]bool
+	entryAssumes   []*Clause
+	errGlobals     []string
+	lemmaVCs       []lemmaVC
+	modTab         map[string]*modEntry
+	assumingPost   bool
 	inGuardedDefer bool
-	specErrors    []string
-	callbackCalls []string
-	externUsed    map[string]bool
-	atsUsed       map[*AtSpec]bool
-	assumesUsed   []string
-	lemmasUsed    map[string]bool
-	afterFuncs    []*closureInfo
-	uuidFresh     []string
-	lockSnap      *State
+	specErrors     []string
+	callbackCalls  []string
+	externUsed     map[string]bool
+	atsUsed        map[*AtSpec]bool
+	assumesUsed    []string
+	lemmasUsed     map[string]bool
+	afterFuncs     []*closureInfo
+	uuidFresh      []string
+	genPrev        map[int]*State // generation -> state before an interference havoc (havocShared)
+	guardMu        sync.Mutex
+	cmdGuard       []string
+	guardDeps      map[string][]string
 }
 
 type loopInfo struct {
-	header  *ssa.BasicBlock
-	ordinal int
-	blocks  map[*ssa.BasicBlock]bool
-	back    []*ssa.BasicBlock // sources of back edges
+	header   *ssa.BasicBlock
+	ordinal  int
+	blocks   map[*ssa.BasicBlock]bool
+	back     []*ssa.BasicBlock // sources of back edges
 	entryEnv map[string]*Val
 	phiFresh map[*ssa.Phi]*Val
 	havocked []Comp
@@ -245,7 +249,27 @@ func (tr *FnCtx) cur(st *State, c Comp) string {
 	s := tr.declare(name, c.Sort)
 	tr.mapDefaultAxiom(st, c, s)
 	tr.refAxiom(st, c, s)
+	if prev := tr.genPrev[st.Gen]; prev != nil {
+		tr.preserveUnpublished(prev, c, s)
+	}
 	return s
+}
+
+// preserveUnpublished: interference by other goroutines (havocShared) cannot touch objects this goroutine
+// has not published, nor its own variable cells.
+func (tr *FnCtx) preserveUnpublished(prev *State, c Comp, s string) {
+	var cond string
+	pub := tr.cur(prev, compPub)
+	switch {
+	case strings.HasPrefix(c.Name, "M."):
+		cond = "(or (>= x 0) (not (select " + pub + " (elemB x))))"
+	case strings.HasPrefix(c.Name, "F."), strings.HasPrefix(c.Name, "MD."), strings.HasPrefix(c.Name, "MV."):
+		cond = "(not (select " + pub + " x))"
+	default:
+		return
+	}
+	o := tr.cur(prev, c)
+	tr.emit(fmt.Sprintf("(assert (forall ((x Int)) (! (=> %s (= (select %s x) (select %s x))) :pattern ((select %s x)))))", cond, s, o, s))
 }
 
 // mapDefaultAxiom: map value components hold the zero value for absent keys (normal form of
@@ -310,7 +334,15 @@ func (tr *FnCtx) mergeStates(conds []string, sts []*State) *State {
 			sameGen = false
 		}
 	}
-	res := &State{Comps: map[string]string{}, Gen: sts[0].Gen}
+	res := &State{Comps: map[string]string{}, Gen: sts[0].Gen, LockSnap: sts[0].LockSnap, UnlockSnap: sts[0].UnlockSnap}
+	for _, s := range sts[1:] {
+		if s.LockSnap != res.LockSnap {
+			res.LockSnap = nil
+		}
+		if s.UnlockSnap != res.UnlockSnap {
+			res.UnlockSnap = nil
+		}
+	}
 	names := map[string]bool{}
 	if sameGen {
 		for _, s := range sts {
